@@ -76,9 +76,11 @@ def _work(job):
             if len(inp) > 2 and rng.random() < 0.25:
                 k = rng.randrange(1, len(inp))
                 chunkings.append([inp[:k], inp[k:]])
+            first_bad, results = None, []
             for ch in chunkings:
                 out["runs"] += 1
                 sent, stored, term, exc = run(m, ch)
+                results.append((sent, stored, term, exc))
                 ok = (term and not exc and sent == len(pre) and (stored or type(pre)()) == pre) if acc else (not term and exc == "NonTerminal")
                 if acc is False and ok:
                     # rejected, as required; "rather than absorbed": nothing beyond the viable prefix may have been taken
@@ -88,11 +90,19 @@ def _work(job):
                     # exactly the known defect F10: a proper prefix of the next multi-byte symbol's encoding is taken, then NonTerminal
                     nxt = SYM[syms[n]].encode("utf-8")
                     f10 = exc == "NonTerminal" and not term and stored is not None and any(stored == pre + nxt[:k] and sent == len(pre) + k for k in range(1, len(nxt)))
-                if not ok:
-                    mb = kind == "bytes" and any(c in (4, 5) for c in syms)
-                    out["problems"].append({"m": kind, "s": syms, "chunks": [len(c) for c in ch], "want": [n, acc],
-                                            "got": [sent, repr(stored), term, exc], "multibyte_input": mb, "f10": f10})
-                    break
+                if not ok and first_bad is None:
+                    first_bad = (ch, sent, stored, term, exc, f10)
+            if first_bad is not None:
+                ch, sent, stored, term, exc, f10 = first_bad
+                mb = kind == "bytes" and any(c in (4, 5) for c in syms)
+                # whatever language a machine accepts, its behaviour must not depend on the chunking, what it stored must be the
+                # input it consumed, and the only failure is NonTerminal: a disagreement with the oracle that breaks these is not
+                # the known octet-level reading of '.' / negated classes (F11), it is something else
+                consistent = (len(set((r[0], r[1], r[2], r[3]) for r in results)) == 1
+                              and all(r[3] in ("", "NonTerminal") for r in results)
+                              and all(r[1] is None or (r[1] == inp[:len(r[1])] and r[0] >= len(r[1])) for r in results))
+                out["problems"].append({"m": kind, "s": syms, "chunks": [len(c) for c in ch], "want": [n, acc],
+                                        "got": [sent, repr(stored), term, exc], "multibyte_input": mb, "f10": f10, "consistent": consistent})
     return out
 
 
@@ -139,7 +149,7 @@ def main(ctx):
     for key, lst in sorted(classes.items()):
         for text, p in lst:
             rec = {"regex": text, "problem": p, "machine": p["m"], "multibyte_input": bool(p.get("multibyte_input")),
-                   "partial_symbol_then_reject": bool(p.get("f10")), "wildcard": key[2] == "wildcard-or-negated-class",
+                   "partial_symbol_then_reject": bool(p.get("f10")), "wildcard": key[2] == "wildcard-or-negated-class", "consistent": bool(p.get("consistent")),
                    "class": "-".join(key)}
             ctx.violation("regex_" + "_".join(key), rec, what="regex %r (%s machine) on %r in chunks %s: oracle (consumed, accept) = %s, machine (sent, stored, terminal, exc) = %s" % (
                 text, p["m"], "".join(SYM[c] for c in (p.get("s") or [])), p.get("chunks"), p.get("want"), p.get("got")))
